@@ -754,6 +754,173 @@ theorem newTick_eq_incremental (set : Bool) (lhs : Src (κ × ν1)) (rhs : Src (
     Nat.zero_add] at h1
   simpa [Half.empty] using h1.symm
 
+/-! ### multi-tick histories: state carried over, inputs appended -/
+
+/-- outputs until the first `Ended`, and the state in which it was reported -/
+def driveEnd (step : σ → σ × Step β) : Nat → σ → List β × Option σ
+  | 0, _ => ([], none)
+  | n + 1, s =>
+    match step s with
+    | (s', .ready x) => (x :: (driveEnd step n s').1, (driveEnd step n s').2)
+    | (s', .pending) => driveEnd step n s'
+    | (s', .ended) => ([], some s')
+
+theorem aux_driveEnd_fst (step : σ → σ × Step β) (n : Nat) (s : σ) :
+    (driveEnd step n s).1 = drive step n s := by
+  induction n generalizing s with
+  | zero => rfl
+  | succ n ih =>
+    simp only [driveEnd, drive]
+    rcases step s with ⟨s', (x | _ | _)⟩ <;> simp [ih]
+
+/-- once the end is reached, more fuel changes nothing -/
+theorem aux_driveEnd_mono (step : σ → σ × Step β) (n d : Nat) (s e : σ)
+    (h : (driveEnd step n s).2 = some e) : driveEnd step (n + d) s = driveEnd step n s := by
+  induction n generalizing s with
+  | zero => simp [driveEnd] at h
+  | succ n ih =>
+    have e1 : n + 1 + d = (n + d) + 1 := by omega
+    rw [e1]
+    simp only [driveEnd] at h ⊢
+    rcases hs : step s with ⟨s', (x | _ | _)⟩ <;> simp only [hs] at h ⊢
+    · rw [ih s' h]
+    · exact ih s' h
+
+/-- induction along a run of the join: every non-final pull makes lexicographic progress -/
+theorem aux_join_induct (set : Bool) (P : JoinSt κ ν1 ν2 → Prop)
+    (hend : ∀ st, NoEnd st.lhs → NoEnd st.rhs → (joinStep set st).2 = .ended → P st)
+    (hstep : ∀ st, NoEnd st.lhs → NoEnd st.rhs → (joinStep set st).2 ≠ .ended → P (joinStep set st).1 → P st)
+    (st : JoinSt κ ν1 ν2) (hl : NoEnd st.lhs) (hr : NoEnd st.rhs) : P st := by
+  have main : ∀ s q (st : JoinSt κ ν1 ν2), slen st = s → qlen st = q → NoEnd st.lhs → NoEnd st.rhs → P st := by
+    intro s
+    induction s using Nat.strongRecOn with
+    | ind s ihs =>
+      intro q
+      induction q using Nat.strongRecOn with
+      | ind q ihq =>
+        intro st hs hq hl hr
+        have ok := aux_step set st hl hr
+        by_cases he : (joinStep set st).2 = .ended
+        · exact hend st hl hr he
+        · refine hstep st hl hr he ?_
+          rcases ok.progress he with ⟨h1, h2⟩ | h2
+          · exact ihq _ (by omega) _ (by omega) rfl ok.noEndL ok.noEndR
+          · exact ihs _ (by omega) _ _ rfl rfl ok.noEndL ok.noEndR
+  exact main _ _ st rfl rfl hl hr
+
+/-- **Final state of a tick**: driven to its end, the join leaves exactly the arrivals in the
+tables and nothing queued -/
+theorem join_final_state (set : Bool) (st : JoinSt κ ν1 ν2) (hl : NoEnd st.lhs) (hr : NoEnd st.rhs) :
+    ∃ N, ∀ n, N ≤ n → ∃ st', (driveEnd (joinStep set) n st).2 = some st' ∧
+      st'.ls.table = Lfin set st ∧ st'.rs.table = Rfin set st ∧ st'.ls.queue = [] ∧ st'.rs.queue = [] := by
+  refine aux_join_induct set (fun st => ∃ N, ∀ n, N ≤ n → ∃ st', (driveEnd (joinStep set) n st).2 = some st' ∧
+      st'.ls.table = Lfin set st ∧ st'.rs.table = Rfin set st ∧ st'.ls.queue = [] ∧ st'.rs.queue = []) ?_ ?_ st hl hr
+  · intro st hl hr he
+    have ok := aux_step set st hl hr
+    obtain ⟨e1, e2, e3, e4⟩ := ok.ended he
+    refine ⟨1, fun n hn => ?_⟩
+    obtain ⟨n', rfl⟩ : ∃ n', n = n' + 1 := ⟨n - 1, by omega⟩
+    rcases hs : joinStep set st with ⟨st', a⟩
+    rw [hs] at he e1 e2 e3 e4 ok
+    simp only at he e1 e2 e3 e4
+    subst he
+    refine ⟨st', by simp [driveEnd, hs], ?_, ?_, e3, e4⟩
+    · have := ok.lfin; simp only [Lfin, e1, items, finalT, foldl_nil] at this; exact this
+    · have := ok.rfin; simp only [Rfin, e2, items, finalT, foldl_nil] at this; exact this
+  · intro st hl hr he ⟨N, hN⟩
+    have ok := aux_step set st hl hr
+    refine ⟨N + 1, fun n hn => ?_⟩
+    obtain ⟨n', rfl⟩ : ∃ n', n = n' + 1 := ⟨n - 1, by omega⟩
+    obtain ⟨st'', h1, h2, h3, h4, h5⟩ := hN n' (by omega)
+    rcases hs : joinStep set st with ⟨st', a⟩
+    rw [hs] at he ok h1 h2 h3
+    simp only at he h1 h2 h3
+    refine ⟨st'', ?_, h2.trans ok.lfin, h3.trans ok.rfin, h4, h5⟩
+    cases a with
+    | ended => exact absurd rfl he
+    | pending => simpa [driveEnd, hs] using h1
+    | ready x => simpa [driveEnd, hs] using h1
+
+/-- a history of ticks over persisted half-join states: each tick has fresh inputs and is
+driven to its end; the states carry over -/
+def runTicks (set : Bool) (n : Nat) : Half κ ν1 ν2 → Half κ ν2 ν1 →
+    List (Src (κ × ν1) × Src (κ × ν2)) → List (κ × ν1 × ν2)
+  | _, _, [] => []
+  | ls, rs, (l, r) :: rest =>
+    match driveEnd (joinStep set) n ⟨l, r, ls, rs⟩ with
+    | (outs, some st') => outs ++ runTicks set n st'.ls st'.rs rest
+    | (outs, none) => outs
+
+omit [DecidableEq κ] [DecidableEq ν] in
+theorem aux_finalT_append [DecidableEq κ] [DecidableEq ν] (set : Bool) (t : Table κ ν) (a b : List (κ × ν)) :
+    finalT set t (a ++ b) = finalT set (finalT set t a) b := by
+  simp [finalT, foldl_append]
+
+/-- **Persisted state, then new arrivals** (incremental path over any number of ticks): all that
+is emitted over the whole history, together with the join of the tables the history started
+with, is exactly the join of the tables holding every arrival of every tick — no pair missed,
+none repeated, whatever the interleavings and pendings inside each tick. -/
+theorem join_persisted_then_new (set : Bool) (ticks : List (Src (κ × ν1) × Src (κ × ν2)))
+    (hne : ∀ t ∈ ticks, NoEnd t.1 ∧ NoEnd t.2) (ls : Half κ ν1 ν2) (rs : Half κ ν2 ν1)
+    (hql : ls.queue = []) (hqr : rs.queue = []) :
+    ∃ N, ∀ n, N ≤ n → ∀ k v1 v2,
+      count (k, v1, v2) (runTicks set n ls rs ticks) + tcount ls.table k v1 * tcount rs.table k v2 =
+        tcount (finalT set ls.table (ticks.flatMap fun t => items t.1)) k v1 *
+        tcount (finalT set rs.table (ticks.flatMap fun t => items t.2)) k v2 := by
+  induction ticks generalizing ls rs with
+  | nil => exact ⟨0, fun n _ k v1 v2 => by simp [runTicks, finalT]⟩
+  | cons t rest ih =>
+    obtain ⟨l, r⟩ := t
+    have hlr := hne (l, r) (by simp)
+    obtain ⟨N1, h1⟩ := join_emitted_plus_old_eq_queued_plus_final set ⟨l, r, ls, rs⟩ hlr.1 hlr.2
+    obtain ⟨N2, h2⟩ := join_final_state set ⟨l, r, ls, rs⟩ hlr.1 hlr.2
+    -- the state the first tick ends in does not depend on the fuel; fix it with the fuel `max N1 N2`
+    obtain ⟨st0, e0, t1, t2, q1, q2⟩ := h2 (max N1 N2) (by omega)
+    obtain ⟨N3, h3⟩ := ih (fun t ht => hne t (by simp [ht])) st0.ls st0.rs q1 q2
+    refine ⟨max (max N1 N2) N3, fun n hn k v1 v2 => ?_⟩
+    obtain ⟨d, rfl⟩ : ∃ d, n = max N1 N2 + d := ⟨n - max N1 N2, by omega⟩
+    have e' := aux_driveEnd_mono (joinStep set) (max N1 N2) d _ _ e0
+    have c1 := h1 (max N1 N2 + d) (by omega) k v1 v2
+    have c3 := h3 (max N1 N2 + d) (by omega) k v1 v2
+    rw [← aux_driveEnd_fst, e'] at c1
+    simp only [JB, JQ, JT, hql, hqr, count_nil, Nat.zero_add, Lfin, Rfin] at c1
+    simp only [t1, t2, Lfin, Rfin] at c3
+    rcases hde : driveEnd (joinStep set) (max N1 N2) ⟨l, r, ls, rs⟩ with ⟨outs, o⟩
+    rw [hde] at e0 c1 e'
+    simp only at e0 c1
+    subst e0
+    simp only [runTicks, e', count_append, flatMap_cons, aux_finalT_append]
+    omega
+
+/-- fresh multiset states, any number of ticks: over the whole history `(k,(v1,v2))` is emitted
+once per pair of occurrences among *all* arrivals of *all* ticks -/
+theorem join_multi_tick_multiset_fresh (ticks : List (Src (κ × ν1) × Src (κ × ν2)))
+    (hne : ∀ t ∈ ticks, NoEnd t.1 ∧ NoEnd t.2) :
+    ∃ N, ∀ n, N ≤ n → ∀ k v1 v2,
+      count (k, v1, v2) (runTicks false n Half.empty Half.empty ticks) =
+        count (k, v1) (ticks.flatMap fun t => items t.1) * count (k, v2) (ticks.flatMap fun t => items t.2) := by
+  obtain ⟨N, hN⟩ := join_persisted_then_new false ticks hne Half.empty Half.empty rfl rfl
+  refine ⟨N, fun n hn k v1 v2 => ?_⟩
+  have := hN n hn k v1 v2
+  simpa [Half.empty, aux_tcount_nil, aux_finalT_multi] using this
+
+/-- the same for set states: exactly once iff each half arrived in some tick -/
+theorem join_multi_tick_set_fresh (ticks : List (Src (κ × ν1) × Src (κ × ν2)))
+    (hne : ∀ t ∈ ticks, NoEnd t.1 ∧ NoEnd t.2) :
+    ∃ N, ∀ n, N ≤ n → ∀ k v1 v2,
+      count (k, v1, v2) (runTicks true n Half.empty Half.empty ticks) =
+        if (k, v1) ∈ (ticks.flatMap fun t => items t.1) ∧ (k, v2) ∈ (ticks.flatMap fun t => items t.2)
+        then 1 else 0 := by
+  obtain ⟨N, hN⟩ := join_persisted_then_new true ticks hne Half.empty Half.empty rfl rfl
+  refine ⟨N, fun n hn k v1 v2 => ?_⟩
+  have := hN n hn k v1 v2
+  generalize runTicks true n (Half.empty : Half κ ν1 ν2) (Half.empty : Half κ ν2 ν1) ticks = out at this ⊢
+  simp only [Half.empty, aux_tcount_nil, aux_finalT_set, Nat.lt_irrefl, if_false, Nat.zero_mul,
+    Nat.add_zero] at this
+  rw [this]
+  by_cases h1 : (k, v1) ∈ (ticks.flatMap fun t => items t.1) <;>
+    by_cases h2 : (k, v2) ∈ (ticks.flatMap fun t => items t.2) <;> simp [h1, h2]
+
 /-! ### non-vacuity -/
 
 /-- set semantics: the duplicate `(0,1)` on the left is dropped, both right values match it;
@@ -780,5 +947,10 @@ example : newTickJoin (⟨[(0, [1, 2])], [], 2⟩ : Half Nat Nat Nat) (⟨[(0, [
     = [(0, 1, 5), (0, 2, 5)] := by decide
 
 example : Table.WF ([(0, [1, 2]), (1, [3])] : Table Nat Nat) := by simp [Table.WF]
+
+/-- two ticks on persisted set state: the pair completed by the second tick comes out in the second tick, once -/
+example : runTicks true 20 (Half.empty : Half Nat Nat Nat) (Half.empty : Half Nat Nat Nat)
+    [([.ready (0, 1), .pending], [.pending]), ([.pending, .ready (0, 1)], [.ready (0, 7)])] = [(0, 1, 7)] := by
+  decide
 
 end HvPull
